@@ -110,6 +110,15 @@ class CoDomain(Domain):
         t = sym.text
         if isinstance(n, ast.Call) and dotted(n.func) == 'inspect.isgenerator':
             return self.isgen
+        # emptiness of the kill queue, when read now (not a stale copy): it
+        # is non-empty if the focus generator is marked
+        if fo is not None and fo['inK'] and t in (
+                K, f'len({K})', f'len({K}) > 0', f'bool({K})') and (
+                    K, st.versions.get(K, 0)) in sym.stamp:
+            return True
+        if fo is not None and fo['inK'] and t == f'len({K}) == 0' and (
+                K, st.versions.get(K, 0)) in sym.stamp:
+            return False
         if isinstance(n, ast.Compare) and len(n.ops) == 1:
             l, op, r = n.left, n.ops[0], n.comparators[0]
             lt, rt = norm(l), norm(r)
@@ -214,6 +223,10 @@ class CoDomain(Domain):
             out = []
             for name in ('active', 'active+kill'):
                 s = st.copy()
+                # bodies stepped earlier in this frame may have marked this
+                # generator: anything read from the kill queue before now is
+                # stale
+                s.bump(K)
                 fo = dict(STATES[name])
                 fo['_from'] = name
                 fo['_loop'] = 'active loop'
@@ -336,6 +349,12 @@ class CoDomain(Domain):
         # call-out into the generator body
         if d == 'next' and fo is not None and args and self._is_focus(
                 st, args[0]):
+            if fo['inK']:
+                self._issue(st, ev.node, 'a coroutine whose kill is pending '
+                            'is stepped: its code runs after kill() (the '
+                            'kill check was skipped on this path, e.g. '
+                            'decided on a value read before the mark was '
+                            'set)')
             out = []
             # the body may call kill() on itself (a pending mark appears)
             for kill in ((False, True) if not fo['inK'] else (True,)):
@@ -634,3 +653,13 @@ def run(program, rep, tier):
     rep.extra['process_loop_bound'] = PROCESS_LOOP_BOUND
     run_methods(program, rep)
     run_process(program, rep)
+    # PAUSED exactly for positive waits: the sleep test of process() (C08)
+    import copy
+    from rules import c08
+    tmp = copy.copy(rep)
+    tmp.obs, tmp.errors, tmp.analysed, tmp.extra = [], [], {}, {}
+    c08.run(program, tmp, 'quick', sleep_only=True)
+    for o in tmp.obs:
+        if o.rule == 'C08.sleep':
+            o.rule = 'C09.spec'
+            rep.obs.append(o)
